@@ -148,7 +148,7 @@ def build(d):
 
 
 def _gen_meshlike(rng, maxk):
-    k = rng.choice([0, 1, 1, 2, 2, 2, 3, 3][: 6 + maxk - 1])
+    k = rng.choice([0, 1, 1, 2, 2, 2] + [3, 3] * (maxk >= 3) + [4, 4] * (maxk >= 4) + [5] * (maxk >= 5))
     perm = common.rand_perm(rng, k)
     r = rng.random()
     def sub():
@@ -250,6 +250,8 @@ def _neighbour(rng, d):
 
 def gen_case(rng, tier):
     maxk = 3 if tier == "quick" else 4
+    if rng.random() < 0.06:
+        maxk += 2
     pool = []
     target = rng.randint(6, 20)
     while len(pool) < target:
